@@ -261,7 +261,7 @@ def Ext.builder (e : Ext) : R Builder := do
         if s = "hash" then pure (.subjectKeyIdHash e.critical) else throw "subjectKeyId: malformed content"
       | .keyUsage (some fs) => do pure (.constant (Cert.newKeyUsage e.critical (← keyUsageFlags fs)))
       | .subjectAltName (some ns) => do pure (.constant (Cert.newSubjectAlternativeName e.critical (← ns.mapM sanName)))
-      | .basicConstraints (some b) => pure (.constant (Cert.newBasicConstraints e.critical b.ca b.pathLen))
+      | .basicConstraints (some b) => pure (.constant (Cert.newBasicConstraints e.critical b.ca (b.pathLen.getD 0)))
       | .certPolicies (some ps) => do
         let ps' ← ps.mapM convertPolicy
         pure (.constant (← Cert.newCertificatePolicies e.critical ps'))
